@@ -358,6 +358,68 @@ fn gen_garbage(rng: &mut Rng) -> ZoneSpec {
 pub fn fuzz_case(l: &mut Local, z: &ZoneSpec, rng: &mut Rng) {
     judge(l, z, "valid_by_construction", None);
     perturbations(l, z, rng);
+    // one to three arbitrary edits of the valid zone, and an arbitrary tuple: accept / refuse as the sentence says
+    let mut m = z.clone();
+    for _ in 0..1 + rng.below(3) {
+        mutate(&mut m, rng);
+    }
+    judge(l, &m, "arbitrary_edits", None);
+    judge(l, &gen_garbage(rng), "arbitrary_tuple", None);
+}
+
+/// one arbitrary edit of a zone description (times, indices, leap records, rule halves; small and extreme deltas)
+pub fn mutate(z: &mut ZoneSpec, rng: &mut Rng) {
+    let delta = |rng: &mut Rng| -> i64 {
+        match rng.below(6) {
+            0 => *rng.pick(&[1i64, -1, 2, -2]),
+            1 => *rng.pick(&[2_419_199i64, -2_419_199, 2_419_198, -2_419_198, 2_419_200, -2_419_200]),
+            2 => rng.range(-100_000_000, 100_000_000),
+            3 => rng.i64_log(),
+            4 => *rng.pick(&[i64::MAX, i64::MIN, i64::MAX / 2, i64::MIN / 2]),
+            _ => rng.range(-4000, 4000),
+        }
+    };
+    match rng.below(8) {
+        0 if !z.transitions.is_empty() => {
+            let k = rng.below(z.transitions.len() as u64) as usize;
+            z.transitions[k].0 = z.transitions[k].0.saturating_add(delta(rng));
+        }
+        1 if !z.transitions.is_empty() => {
+            let k = rng.below(z.transitions.len() as u64) as usize;
+            z.transitions[k].1 = rng.below(z.types.len() as u64 + 2) as usize;
+        }
+        2 if !z.leaps.0.is_empty() => {
+            let k = rng.below(z.leaps.0.len() as u64) as usize;
+            z.leaps.0[k].0 = z.leaps.0[k].0.saturating_add(delta(rng));
+        }
+        3 if !z.leaps.0.is_empty() => {
+            let k = rng.below(z.leaps.0.len() as u64) as usize;
+            z.leaps.0[k].1 = z.leaps.0[k].1.saturating_add(*rng.pick(&[1, -1, 2, -2, i32::MAX, i32::MIN]));
+        }
+        4 if z.leaps.0.len() >= 2 => {
+            let k = rng.below(z.leaps.0.len() as u64 - 1) as usize;
+            z.leaps.0.swap(k, k + 1);
+        }
+        5 if z.transitions.len() >= 2 => {
+            let k = rng.below(z.transitions.len() as u64 - 1) as usize;
+            z.transitions.swap(k, k + 1);
+        }
+        6 => {
+            if let Some(k) = (!z.types.is_empty()).then(|| rng.below(z.types.len() as u64) as usize) {
+                match rng.below(3) {
+                    0 => z.types[k].off = z.types[k].off.saturating_add(delta(rng).clamp(-100_000, 100_000) as i32),
+                    1 => z.types[k].dst = !z.types[k].dst,
+                    _ => z.types[k].desig = Some(format!("M{:02}", rng.below(100))),
+                }
+            }
+        }
+        _ => {
+            z.leaps.0.push((rng.range(-5, 1 << 33), *rng.pick(&[1i32, -1, 0, 2])));
+            if rng.chance(1, 2) {
+                z.leaps.0.sort();
+            }
+        }
+    }
 }
 
 pub fn run(ctx: &Ctx) -> Report {
@@ -428,6 +490,26 @@ pub fn run(ctx: &Ctx) -> Report {
         if i % 17000 == 3 {
             l.sample(|| Json::obj().set("base_zone", z.describe()).set("perturbations", n));
         }
+    });
+    // wl 8: one to three arbitrary edits of a valid zone (times, indices, leap records moved by small, 28-day and extreme
+    // deltas, neighbours swapped, type fields changed, a record appended): accepted or refused as the sentence says
+    run_cases(ctx, &mut rep, 8, ctx.n(60_000, 1_500_000), |l, rng, _| {
+        let mut c = cfg.clone();
+        c.max_transitions = 12;
+        if rng.chance(1, 3) {
+            c.rule = *rng.pick(&[RuleMode::Fixed, RuleMode::Alt]);
+        }
+        c.leaps = true;
+        let mut z = gen_zone(rng, &c);
+        if z.leaps.is_empty() && rng.chance(1, 2) {
+            z.leaps = crate::gen::zone::gen_leaps(rng, true);
+        }
+        for _ in 0..1 + rng.below(3) {
+            mutate(&mut z, rng);
+        }
+        judge(l, &z, "arbitrary_edits", None);
+        l.op_n("TimeZone::new + TimeZoneRef::new", 2);
+        l.distinct_hash(Fnv::new().b(z.describe().as_bytes()).get());
     });
     // leap-second tables at the i64 / i32 extremes (saturating arithmetic paths): exact spacing, one second short,
     // equal times, inverted times, with the later record at i64::MAX, i64::MAX - 1 and near i64::MIN
